@@ -32,7 +32,7 @@ LEVEL_NOTE = ("events are >= 3 ms apart and decision windows are 1 ms, so verdic
               "fake API / component graph; warnings (non-critical errors) count as healthy")
 RULE = ("seeded scripts; distinct = canonical script JSON; non-trivial = >=1 fault or silence and >=1 failed set-power "
         "while working")
-REQUIRED_BUCKETS = ["fault:state", "fault:relay", "fault:cap", "fault:crit", "fault:stale", "inv-fault:state",
+REQUIRED_BUCKETS = ["manager-tier:all-calls-of-the-next-request-succeed", "manager-tier:failed-batteries-reported-uncertain", "fault:state", "fault:relay", "fault:cap", "fault:crit", "fault:stale", "inv-fault:state",
                     "inv-fault:crit", "silence>maxage:bat", "silence>maxage:inv", "silence<maxage", "set-power-failed",
                     "set-power-succeeded", "blocked-twice(back-off)", "back-off-capped", "recovered", "uncertain-seen",
                     "pool-fallback-to-uncertain", "pool-tier", "pool-fallback-to-uncertain(live)",
@@ -55,6 +55,17 @@ def budget(tier: str) -> dict[str, Any]:
 def gen(rng: Any, tier: str, i: int) -> Any:
     if rng.random() < 0.15:
         return gen_pool(rng)
+    if rng.random() < 0.06:
+        # the outcome messages as the real BatteryManager produces them: a request whose calls all fail, then (inside
+        # the blocking period) one whose calls all succeed
+        from . import c15
+
+        case = None
+        while case is None or case.get("kind") != "battery" or case.get("unusable") is not None:
+            case = c15.gen(rng, tier, i)
+        case.update({"kind": "manager", "followup": True, "timeout": 5.0, "latency": 0.0})
+        case.pop("lat_vec", None)
+        return case
     ev: list[list[Any]] = []
     t = 0.0
     bsil = isil = 0.0
@@ -208,7 +219,42 @@ async def _drive(case: dict[str, Any], out: dict[str, Any]) -> None:
         bs.BlockingStatus.unblock = orig_unblock  # type: ignore[method-assign]
 
 
+def _check_manager(case: dict[str, Any], rec: Any) -> None:
+    from frequenz.sdk.microgrid._power_distributing.result import Success
+
+    from . import c15
+
+    rec.bucket("manager-tier(outcomes reported by the real BatteryManager)")
+    n_inv = sum(len(g["invs"]) for g in case["groups"])
+    out: dict[str, Any] = {"rounds": []}
+    mcase = dict(case, kind="battery")
+    run_virtual(lambda: c15._battery_run(mcase, ["exc"] * n_inv, out), monitor=LoopMonitor())  # noqa: SLF001
+    rec.count("scripts_run")
+    if len(out["rounds"]) < 2 or not out.get("pool_status"):
+        rec.harness_problem("manager tier: fewer than two rounds or no pool status observed")
+        return
+    first, second = out["rounds"][0], out["rounds"][1]
+    last = out["pool_status"][-1]
+    failed_first = {b for c in first["calls"] for b in first["inv_bats"][c["id"]]}
+    if any(set(st["uncertain"]) & failed_first for st in out["pool_status"]):
+        rec.bucket("manager-tier:failed-batteries-reported-uncertain")
+    res2 = second["result"]
+    rec.count("status_reports_checked", len(out["pool_status"]))
+    if isinstance(res2, Success) and second["calls"]:
+        rec.bucket("manager-tier:all-calls-of-the-next-request-succeed")
+        still = sorted(set(res2.succeeded_components) & set(last["uncertain"]))
+        if still:
+            rec.violation("succeeded-command-does-not-reset-blocking",
+                          {"via": "BatteryManager.distribute_power", "still_uncertain": still, "pool_status_history": out["pool_status"][-6:],
+                           "second_result": repr(res2)[:300]})
+    rec.nontrivial(True)
+    rec.observed({"pool_status": out["pool_status"][-4:]})
+
+
 def check(case: dict[str, Any], rec: Any) -> None:
+    if case.get("kind") == "manager":
+        _check_manager(case, rec)
+        return
     if case.get("tier") == "pool":
         check_pool(case, rec)
         return
@@ -285,6 +331,16 @@ def check(case: dict[str, Any], rec: Any) -> None:
     for s in statuses:
         if s[1] == "UNCERTAIN":
             rec.bucket("uncertain-seen")
+    # (0) a battery becomes UNCERTAIN only through a failed command delivered while it was WORKING
+    fail_times = [te for te, k, v in events if k == "sp" and v == "fail"]
+    for (ta, sa), (tb, sb_) in zip([(-1.0, "NOT_WORKING")] + statuses, statuses):
+        if sb_ == "UNCERTAIN":
+            rec.count("uncertain_reports_justified")
+            if sa != "WORKING" or not any(abs(tb - x) <= 0.002 for x in fail_times):
+                rec.violation("reported-uncertain-without-a-failed-command",
+                              {**w0, "report": [tb, sb_], "previous": [ta, sa], "failed_commands_at": fail_times[:12],
+                               "events": recent(tb)})
+                break
     # (1) safety: every WORKING/UNCERTAIN report is justified at its own instant
     for ts, st in statuses:
         if st in ("WORKING", "UNCERTAIN") and not (ok("bat", ts) and ok("inv", ts)):
